@@ -1,5 +1,6 @@
 #include "configs.h"
 #include "simrandom.h"
+#include "sched.h"
 #include <bxdecay0/bb_utils.h>
 #include <bxdecay0/mdl_event_op.h>
 #include <bxdecay0/particle_utils.h>
@@ -48,7 +49,7 @@ const std::vector<DbdEntry> & dbd_catalogue()
       if (line.empty() || line[0] == '#') continue;
       std::istringstream ls(line);
       DbdEntry e;
-      if (ls >> e.nuc >> e.level >> e.mode >> e.init_draws >> e.init_us >> e.q_keV >> e.e0_keV) v.push_back(e);
+      if (ls >> e.nuc >> e.level >> e.mode >> e.init_draws >> e.init_us >> e.q_keV >> e.e0_keV >> e.qng_calls >> e.qng_fails) v.push_back(e);
     }
   }
   return v;
@@ -57,7 +58,21 @@ const std::vector<DbdEntry> & dbd_catalogue()
 const std::vector<DbdEntry> & dbd_cheap()
 {
   static std::vector<DbdEntry> v;
-  if (v.empty()) for (auto & e : dbd_catalogue()) if (e.init_us < 3000) v.push_back(e);
+  if (v.empty()) for (auto & e : dbd_catalogue()) if (e.qng_calls == 0) v.push_back(e); // no quadrature at initialise: microseconds
+  return v;
+}
+
+const std::vector<DbdEntry> & dbd_quad()
+{
+  static std::vector<DbdEntry> v;
+  if (v.empty()) for (auto & e : dbd_catalogue()) if (e.qng_calls > 0 && e.qng_calls < 1500) v.push_back(e);
+  return v;
+}
+
+const std::vector<DbdEntry> & dbd_quad_missing()
+{
+  static std::vector<DbdEntry> v;
+  if (v.empty()) for (auto & e : dbd_quad()) if (e.qng_fails > 0) v.push_back(e);
   return v;
 }
 
@@ -224,14 +239,16 @@ int cmd_catalogue(std::map<std::string, std::string> & args)
             SimRandom r(hstr("catalogue"));
             r.begin_op(10000000);
             auto t0 = std::chrono::steady_clock::now();
+            i64 q0 = sched::total_qng_calls(), f0 = sched::total_qng_fails();
             try {
               apply_cfg(g, c);
               g.initialize(r);
             } catch (std::exception &) { continue; }
             auto t1 = std::chrono::steady_clock::now();
             long us = (long)std::chrono::duration_cast<std::chrono::microseconds>(t1 - t0).count();
-            fprintf(f, "%s %d %d %llu %ld %.3f %.3f\n", isos[i].c_str(), level, mode, (unsigned long long)r.op_draws(), us,
-                    g.get_bb_params().Qbb * 1000.0, g.get_bb_params().e0 * 1000.0);
+            fprintf(f, "%s %d %d %llu %ld %.3f %.3f %lld %lld\n", isos[i].c_str(), level, mode, (unsigned long long)r.op_draws(), us,
+                    g.get_bb_params().Qbb * 1000.0, g.get_bb_params().e0 * 1000.0, (long long)(sched::total_qng_calls() - q0),
+                    (long long)(sched::total_qng_fails() - f0));
             fflush(f);
           }
         }
@@ -250,7 +267,7 @@ int cmd_catalogue(std::map<std::string, std::string> & args)
   }
   std::sort(lines.begin(), lines.end());
   std::ofstream o(out.c_str());
-  o << "# accepted double-beta (isotope level mode) triples found by dry initialisation; columns: isotope level mode init_draws init_us Qbb_keV e0_keV\n";
+  o << "# accepted double-beta (isotope level mode) triples found by dry initialisation; columns: isotope level mode init_draws init_us Qbb_keV e0_keV qng_calls qng_fails\n";
   for (auto & l : lines) o << l << "\n";
   printf("catalogue: %zu accepted triples written to %s\n", lines.size(), out.c_str());
   return 0;
